@@ -723,7 +723,7 @@ class Macro(Element):
             node = node.parentNode
         return
 
-    def paragraphs(self, force=True):
+    def paragraphs(self, force=True, charsubs=None):
         """
         Group content into paragraphs
 
@@ -736,8 +736,13 @@ class Macro(Element):
         Keyword Arguments:
         force -- force all content to be grouped into paragraphs even
             if there are no paragraps already present
+        charsubs -- character substitutions to apply to the text
+            (default: the substitutions of the document)
 
         """
+        if charsubs is None:
+            charsubs = self.ownerDocument.charsubs
+
         parname = None
         for item in self:
             if item.level == Node.PAR_LEVEL:
@@ -746,7 +751,7 @@ class Macro(Element):
 
         # No paragraphs, and we aren't forcing paragraphs...
         if parname is None and not force:
-            self.normalize(self.ownerDocument.charsubs)
+            self.normalize(charsubs)
             return
 
         if parname is None:
@@ -778,7 +783,7 @@ class Macro(Element):
         # Insert nodes into self
         for i, item in enumerate(newnodes):
             if item.level == Node.PAR_LEVEL:
-                item.normalize(self.ownerDocument.charsubs)
+                item.normalize(charsubs)
             self.insert(i, item)
 
         # Filter out any empty paragraphs
